@@ -532,6 +532,95 @@ func exprString(e ast.Expr) string {
 
 const header = "-- GENERATED by harness/cmd/extract from /repo's Go sources on every run of a check.\n-- Do not edit: the committed copy is the baseline used when extraction fails.\n"
 
+// runtimeOpTable: the table the harness read from a freshly built CPU (file written by `corr optable`), mapped to
+// handler names; closures are resolved through the function literals of New6502 in source order (the Go runtime names
+// them New6502.func1, func2, ...)
+func runtimeOpTable(path string, newFn *ast.FuncDecl) (t6502, t65c02 map[int]string, err error) {
+	data, err := os.ReadFile(path)
+	if err != nil {
+		return nil, nil, err
+	}
+	var raw map[string]map[string]string
+	if err := json.Unmarshal(data, &raw); err != nil {
+		return nil, nil, err
+	}
+	lits := []*ast.FuncLit{}
+	if newFn != nil && newFn.Body != nil {
+		ast.Inspect(newFn.Body, func(n ast.Node) bool {
+			if fl, ok := n.(*ast.FuncLit); ok {
+				lits = append(lits, fl)
+				return false
+			}
+			return true
+		})
+	}
+	name := func(full string) string {
+		base := full
+		if i := strings.LastIndex(base, "."); i >= 0 {
+			base = base[i+1:]
+		}
+		if strings.HasPrefix(base, "func") && strings.Contains(full, "New6502") {
+			// a function literal of New6502
+			k, err := strconv.Atoi(strings.TrimPrefix(base, "func"))
+			if err != nil || k < 1 || k > len(lits) {
+				return "other"
+			}
+			v := lits[k-1]
+			if len(v.Body.List) == 1 {
+				if r, ok := v.Body.List[0].(*ast.ReturnStmt); ok && len(r.Results) == 2 {
+					n, ok1 := intLit(r.Results[0])
+					id, ok2 := r.Results[1].(*ast.Ident)
+					if ok1 && ok2 {
+						return fmt.Sprintf("lit%d%s", n, id.Name)
+					}
+				}
+			}
+			return "other"
+		}
+		base = strings.TrimSuffix(base, "-fm")
+		if knownHandlers != nil && !knownHandlers[base] {
+			if fd, ok := allCpuFuncs[base]; ok && fd.Body != nil && len(fd.Body.List) == 1 {
+				if r, ok := fd.Body.List[0].(*ast.ReturnStmt); ok && len(r.Results) == 2 {
+					n, ok1 := intLit(r.Results[0])
+					id, ok2 := r.Results[1].(*ast.Ident)
+					if ok1 && ok2 && (id.Name == "true" || id.Name == "false") {
+						return fmt.Sprintf("lit%d%s", n, id.Name)
+					}
+				}
+			}
+		}
+		return base
+	}
+	conv := func(m map[string]string) map[int]string {
+		res := map[int]string{}
+		for k, v := range m {
+			if c, err := strconv.Atoi(k); err == nil {
+				res[c] = name(v)
+			}
+		}
+		return res
+	}
+	if raw["6502"] == nil || raw["65C02"] == nil {
+		return nil, nil, fmt.Errorf("incomplete runtime table")
+	}
+	return conv(raw["6502"]), conv(raw["65C02"]), nil
+}
+
+func sameTable(a, b map[int]string) bool {
+	if len(a) != len(b) {
+		return false
+	}
+	for k, v := range a {
+		if b[k] != v {
+			return false
+		}
+	}
+	return true
+}
+
+// runtimeTablePath: optional fourth argument of the extractor
+var runtimeTablePath string
+
 func doCpu(repo, outDir string) {
 	loadKnownHandlers(outDir)
 	files := parseDir(filepath.Join(repo, "cpu"))
@@ -542,6 +631,21 @@ func doCpu(repo, outDir string) {
 		fail("cpu.optable", "New6502 not found")
 	} else {
 		t1, t2, err := cpuOpTable(newFn)
+		// the table as built at run time (when the harness could be built) is what the code does, however New6502 is
+		// written; the reading of the source is kept as the fallback and as a cross-check
+		if runtimeTablePath != "" {
+			r1, r2, rerr := runtimeOpTable(runtimeTablePath, newFn)
+			if rerr == nil {
+				if err != nil || !sameTable(t1, r1) || !sameTable(t2, r2) {
+					out.Info["cpu.optable.source"] = "runtime table (differs from the reading of New6502's source, or that reading failed)"
+				} else {
+					out.Info["cpu.optable.source"] = "runtime table = source reading"
+				}
+				t1, t2, err = r1, r2, nil
+			} else {
+				out.Info["cpu.optable.source"] = "source reading (no runtime table: " + rerr.Error() + ")"
+			}
+		}
 		if err != nil {
 			fail("cpu.optable", err)
 		} else {
@@ -665,11 +769,14 @@ func doCpu(repo, outDir string) {
 }
 
 func main() {
-	if len(os.Args) != 4 {
-		fmt.Fprintln(os.Stderr, "usage: extract <repo> <out-lean-dir> <facts.json>")
+	if len(os.Args) != 4 && len(os.Args) != 5 {
+		fmt.Fprintln(os.Stderr, "usage: extract <repo> <out-lean-dir> <facts.json> [<runtime-optable.json>]")
 		os.Exit(2)
 	}
 	repo, outDir, factsFile := os.Args[1], os.Args[2], os.Args[3]
+	if len(os.Args) == 5 {
+		runtimeTablePath = os.Args[4]
+	}
 	out.Info = map[string]string{}
 	out.Failed = []string{}
 	out.Written = []string{}
@@ -680,6 +787,7 @@ func main() {
 
 	doCpu(repo, outDir)
 	doCpuCode(repo, outDir)
+	doCoprocCode(repo, outDir)
 	doMore(repo, outDir)
 
 	data, _ := json.MarshalIndent(out, "", " ")
